@@ -19,14 +19,16 @@ static int sparse, full_now;   /* obs=sparse session: content only on `observe` 
 /* ---- interned keys: entry->key points into this table, which lives until `reset` ---- */
 #define MAXKEYS 4096
 static char *keys[MAXKEYS]; static size_t nkeys;
+static void ids_reset(void);
 static void shim_reset(void) {
-    tt = NULL; it_valid = 0;
+    tt = NULL; it_valid = 0; ids_reset();
     for (size_t i = 0; i < nkeys; i++) __real_free(keys[i]);
     nkeys = 0;
 }
 static int hexv(int c) { return c <= '9' ? c - '0' : c - 'a' + 10; }
 static char *intern(const char *hex) {
     char tmp[2048]; size_t n = 0;
+    if (*hex == 'x') hex++;            /* optional prefix: keeps all-decimal hex strings from looking like numbers */
     if (strcmp(hex, "-"))
         for (size_t i = 0; hex[i] && hex[i + 1] && n < sizeof tmp - 1; i += 2)
             tmp[n++] = (char)(hexv(hex[i]) * 16 + hexv(hex[i + 1]));
@@ -95,13 +97,60 @@ static void obs_abs(void) {
     o(" size=%zu", cc_tsttable_size(tt));
 }
 
+/* ---- node identity: every node gets a display id (1, 2, ...) when it is first seen in a dump and keeps it
+   while it stays in the trie.  A dump walks in pre-order and one `add` allocates one chain top-down along `mid`, so
+   this is the allocation order of the nodes that became part of the trie (a refused `add` leaves none).  The dump
+   prints `#id^parent-id` per node (`0` = NULL, `?` = a pointer to no node of the trie); the Lean driver runs the
+   pointer-level model (Model/PTST.lean) alongside, whose ids are its allocation serials, so L3 compares node identity
+   and the `parent` links.  Two generations of the table, so that a freed address that is reused gets a new id. */
+#define TCAP (1u << 15)
+typedef struct { CC_TSTTableNode *p; unsigned long id; unsigned long gen; } TEnt;
+static TEnt ttab[2][TCAP];
+static unsigned long tgen[2], tgen_ctr, tnext_id = 1;
+static int tcur;
+static size_t t_hash(void *p) { return (size_t)((((uintptr_t)p) >> 4) * 2654435761u) & (TCAP - 1); }
+static long t_get(int t, CC_TSTTableNode *p) {
+    for (size_t i = t_hash(p), n = 0; n < TCAP; i = (i + 1) & (TCAP - 1), n++) {
+        TEnt *e = &ttab[t][i];
+        if (e->gen != tgen[t]) return -1;
+        if (e->p == p) return (long)e->id;
+    }
+    return -1;
+}
+static void t_put(int t, CC_TSTTableNode *p, unsigned long id) {
+    for (size_t i = t_hash(p), n = 0; n < TCAP; i = (i + 1) & (TCAP - 1), n++) {
+        TEnt *e = &ttab[t][i];
+        if (e->gen != tgen[t]) { e->p = p; e->id = id; e->gen = tgen[t]; return; }
+        if (e->p == p) return;
+    }
+}
+static void ids_reset(void) { tgen[0] = ++tgen_ctr; tgen[1] = ++tgen_ctr; tnext_id = 1; tcur = 0; }
+static void ids_walk(CC_TSTTableNode *n, int nt, int depth) {
+    if (!n || depth > 4000) return;
+    long id = t_get(tcur, n);
+    t_put(nt, n, id >= 0 ? (unsigned long)id : tnext_id++);
+    ids_walk(n->left, nt, depth + 1); ids_walk(n->mid, nt, depth + 1); ids_walk(n->right, nt, depth + 1);
+}
+static void ids_prepass(void) {
+    if (!tgen_ctr) ids_reset();
+    int nt = 1 - tcur;
+    tgen[nt] = ++tgen_ctr;
+    ids_walk(tt->root, nt, 0);
+    tcur = nt;
+}
+static void o_id(void *p) {
+    if (!p) { o("0"); return; }
+    long id = t_get(tcur, p);
+    if (id < 0) o("?"); else o("%ld", id);
+}
+
 /* ---- private state ---- */
 static size_t n_eow; static const char *walk_msg;
 static void o_node(CC_TSTTableNode *n, CC_TSTTableNode *parent) {
     if (!n) { o("."); return; }
     if (n->parent != parent) walk_msg = "parent-pointer";
     if (block_size(n) < sizeof(CC_TSTTableNode)) walk_msg = "node-block-too-small";
-    o("(%02x;", (unsigned char)n->c);
+    o("(%02x#", (unsigned char)n->c); o_id(n); o("^"); o_id(n->parent); o(";");
     if (n->eow) {
         n_eow++;
         if (block_size(n->data) < sizeof(CC_TSTTableEntry)) walk_msg = "entry-block-too-small";
@@ -131,6 +180,7 @@ static void phys(void) {
     if (!tt) { o("-"); return; }
     o("size=%zu tree=", tt->size);
     n_eow = 0; walk_msg = NULL;
+    ids_prepass();
     o_node(tt->root, NULL);
     if (n_eow != tt->size) walk_msg = "eow-count-differs-from-size";
     if (!sparse || full_now) { collect_iter(); o(" "); o_pairs("ord"); }   /* library iterator */
@@ -140,7 +190,8 @@ static void phys(void) {
         o(" "); O_LIST("cbord"); for (size_t i = 0; i < cb_n; i++) o_item(cb_log[i]); o_end();
     }
     if (it_valid) {
-        o(" it=cur:"); o_path(it.current_node); o(",next:"); o_path(it.next_node);
+        o(" it=cur:"); o_path(it.current_node); o("#"); o_id(it.current_node);
+        o(",next:"); o_path(it.next_node); o("#"); o_id(it.next_node);
         o(",adv:%d", (int)it.advanced_on_remove);
         if (it.advanced_on_remove) o(",ns:%d", (int)it.next_stat);
     }
@@ -157,13 +208,13 @@ static void do_op(Cmd *c) {
         if (!strcmp(cm, "u")) conf.char_cmp = cmp_unsigned;
         if (!strcmp(cm, "r")) conf.char_cmp = cmp_reverse;
         conf.mem_alloc = conf_malloc; conf.mem_calloc = conf_calloc; conf.mem_free = conf_free;
-        tt = NULL; it_valid = 0; sparse = !strcmp(kv_str(c, "obs", "full"), "sparse");
+        tt = NULL; it_valid = 0; sparse = !strcmp(kv_str(c, "obs", "full"), "sparse"); ids_reset();
         enum cc_stat st = cc_tsttable_new_conf(&conf, &tt);
         if (st != CC_OK) tt = NULL;
         o_stat(st); o(" ");
     } else if (is_op(c, "new_default")) {
         tt = NULL; it_valid = 0;   /* C-library allocator: reported in the libc columns */
-        sparse = !strcmp(kv_str(c, "obs", "full"), "sparse");
+        sparse = !strcmp(kv_str(c, "obs", "full"), "sparse"); ids_reset();
         enum cc_stat st = cc_tsttable_new(&tt); if (st != CC_OK) tt = NULL; o_stat(st); o(" ");
     } else if (!tt) { o("st=- nosession"); o_sep(); o("-"); return;
     } else if (is_op(c, "add") && key) {
